@@ -470,6 +470,8 @@ Plan minimise(Profile *prof, const Plan &plan0, const Violation &v, Exec &ex, in
     Plan best   = plan0;
     int  evals  = 0;
     int  budget = prof->minimise_budget();
+    if (v.cls == "hang")
+        budget = std::min(budget, 12); // every evaluation of a hang costs the whole CPU limit
     Outcome first = prof->judge(best, ex);
     evals++;
     int status = first.status;
